@@ -198,6 +198,8 @@ fn choices(p: &[Pending], rng: &mut Rng, exhaustive_upto: usize, random: usize) 
 struct CheckCtx<'a> {
     rec: &'a Recording,
     dir: &'a Path,
+    /// second directory for the images of a crash during the continuation after a recovery
+    dir2: &'a Path,
 }
 
 /// Materialise an image and check what reopening it yields. Returns a finding on violation.
@@ -263,19 +265,39 @@ fn check_image(ctx: &CheckCtx, image: &[u8], size: i64, completed: usize, in_pro
             }
             // Continue the workload on the recovered storage: append + commit + reopen.
             if label["crash_after_event"].as_u64().unwrap_or(0) % 3 == 0 {
-                let r = catch(|| continue_and_reopen(ctx, &s));
+                // A second crash, inside the first commit after the recovery, for torn images and
+                // a sample of the others: the recovery must leave the slot/offset bookkeeping in
+                // a state from which the next commit is crash-safe again.
+                let h = hash_of(&label.to_string());
+                let second = if label["choice"] == "torn" { h % 6 == 0 } else { h % 96 == 0 };
+                let r = catch(|| continue_and_reopen(ctx, &s, second));
                 match r {
                     Err(p) => m.violation(&format!("continue-after-recovery-panic:{}", p.site()), json!({"image": label, "panic": p.what})),
+                    Ok(Err(e)) if e.starts_with("second-crash:") => {
+                        let sig = e.split('|').next().unwrap_or("second-crash").replace("second-crash:", "second-crash-");
+                        m.violation(&sig, json!({"image": label, "why": e}));
+                    }
                     Ok(Err(e)) => m.violation("continue-after-recovery-fails", json!({"image": label, "why": e})),
-                    Ok(Ok(())) => m.count("continued_after_recovery", 1),
+                    Ok(Ok(n)) => {
+                        m.count("continued_after_recovery", 1);
+                        if n > 0 {
+                            m.count("recoveries_followed_by_a_second_crash", 1);
+                            m.count("second_crash_images", n);
+                        }
+                    }
                 }
             }
         }
     }
 }
 
-fn continue_and_reopen(ctx: &CheckCtx, recovered: &Snap) -> Result<(), String> {
+fn continue_and_reopen(ctx: &CheckCtx, recovered: &Snap, second_crash: bool) -> Result<u64, String> {
     let rec = ctx.rec;
+    let path = ctx.dir.join(&rec.file_name);
+    let base_image = if second_crash { std::fs::read(&path).map_err(|e| format!("read image: {e}"))? } else { vec![] };
+    if second_crash {
+        verif::start();
+    }
     let new_id: Id = {
         let mut id = [0xC1u8; 32];
         id[..8].copy_from_slice(&(recovered.cmds.len() as u64).to_le_bytes());
@@ -297,6 +319,16 @@ fn continue_and_reopen(ctx: &CheckCtx, recovered: &Snap) -> Result<(), String> {
         rep.commit(t).map_err(|e| format!("commit after recovery: {e}"))?;
         snap(&mut rep)?
     };
+    let events = if second_crash { verif::take() } else { vec![] };
+    if second_crash && std::env::var("RT_DBG").is_ok() {
+        eprintln!("[c15] base image {} bytes; continuation events:", base_image.len());
+        for (i, e) in events.iter().enumerate() {
+            match e {
+                IoEvent::Write { offset, data } => eprintln!("[c15]  {i}: write off {offset} len {} {:02x?}", data.len(), &data[..data.len().min(24)]),
+                other => eprintln!("[c15]  {i}: {other:?}"),
+            }
+        }
+    }
     // state = recovered + the new command (nothing of a stale tail becomes visible)
     let mut want_cmds: BTreeSet<Id> = recovered.cmds.keys().copied().collect();
     want_cmds.insert(new_id);
@@ -322,12 +354,91 @@ fn continue_and_reopen(ctx: &CheckCtx, recovered: &Snap) -> Result<(), String> {
     if again != after {
         return Err("state after a clean reopen differs from the state before it".into());
     }
-    Ok(())
+    drop(rep2);
+    // Second crash: every crash point inside the continuation commit, on top of the recovered
+    // image. Reopening must give the recovered state or the continued state, never an error.
+    let mut images = 0u64;
+    if second_crash {
+        let mut rng = Rng::new(hash_of(&(base_image.len(), recovered.cmds.len())));
+        let mut durable = base_image.clone();
+        let mut pending: Vec<Pending> = vec![];
+        let apply = |img: &mut Vec<u8>, off: i64, data: &[u8]| {
+            let end = off as usize + data.len();
+            if img.len() < end {
+                img.resize(end, 0);
+            }
+            img[off as usize..end].copy_from_slice(data);
+        };
+        let path2 = ctx.dir2.join(&rec.file_name);
+        // file size: a volatile fallocate may or may not have extended the file (as in the
+        // first-level enumeration)
+        let mut durable_size = base_image.len() as i64;
+        let mut pending_size = durable_size;
+        for i in 0..=events.len() {
+            for (c, kind) in choices(&pending, &mut rng.fork(i as u64), 4, 2) {
+                let mut img = durable.clone();
+                let mut kept = 0;
+                for (k, keep) in c.iter().enumerate() {
+                    if let Some(len) = keep {
+                        apply(&mut img, pending[k].offset, &pending[k].data[..*len]);
+                        kept += 1;
+                    }
+                }
+                let size = if kept == c.len() { durable_size.max(pending_size) } else { durable_size };
+                let _ = std::fs::remove_file(&path2);
+                {
+                    let mut f = std::fs::File::create(&path2).map_err(|e| format!("create second image: {e}"))?;
+                    f.write_all(&img).map_err(|e| format!("write second image: {e}"))?;
+                    f.set_len((size.max(img.len() as i64)) as u64).map_err(|e| format!("set_len second image: {e}"))?;
+                }
+                images += 1;
+                let mut rep3 = FileReplica::new_file(ctx.dir2, &rec.init);
+                let what = format!("crash after event {i} of the continuation commit, {kind}, mask {:?}", c.iter().map(|x| x.map(|l| l as i64).unwrap_or(-1)).collect::<Vec<_>>());
+                // The root record is written as two chunks (4-byte length, then the body). An image in
+                // which the new length is on disk without its body pairs it with whatever body an
+                // earlier, abandoned commit left in that slot: its own signature (known finding).
+                let prefix_only = {
+                    let kept: Vec<usize> = (0..c.len()).filter(|&k| c[k].is_some()).collect();
+                    kept.len() == 1 && pending[kept[0]].data.len() == 4 && c[kept[0]] == Some(4) && (pending[kept[0]].offset == 4096 || pending[kept[0]].offset == 8192)
+                };
+                let tag = if prefix_only { ":root-length-durable-without-its-body" } else { "" };
+                match rep3.storage() {
+                    Err(e) => return Err(format!("second-crash:reopen-fails-after-a-crash-in-the-commit-that-followed-a-recovery{tag}|{e}; {what}")),
+                    Ok(_) => {}
+                }
+                match snap(&mut rep3) {
+                    Err(e) => return Err(format!("second-crash:reopened-state-is-not-fully-readable{tag}|{e}; {what}")),
+                    Ok(s2) => {
+                        if s2 != *recovered && s2 != after {
+                            return Err(format!("second-crash:reopened-state-is-neither-the-recovered-nor-the-continued-state{tag}|{what}"));
+                        }
+                    }
+                }
+            }
+            if i == events.len() {
+                break;
+            }
+            match &events[i] {
+                IoEvent::Write { offset, data } => pending.push(Pending { offset: *offset, data: data.clone() }),
+                IoEvent::Fallocate { offset, len } => pending_size = pending_size.max(offset + len),
+                IoEvent::Mark(_) => {}
+                IoEvent::Fdatasync | IoEvent::Fsync => {
+                    for p in pending.drain(..) {
+                        apply(&mut durable, p.offset, &p.data);
+                        durable_size = durable_size.max(p.offset + p.data.len() as i64);
+                    }
+                    durable_size = durable_size.max(pending_size);
+                }
+            }
+        }
+    }
+    Ok(images)
 }
 
 fn enumerate(rec: &Recording, args: &Args, m: &mut Monitor, shard: usize, shards: usize) {
     let dir = Scratch::new("crash-img");
-    let ctx = CheckCtx { rec, dir: dir.path() };
+    let dir2 = Scratch::new("crash-img2");
+    let ctx = CheckCtx { rec, dir: dir.path(), dir2: dir2.path() };
     let mut rng = Rng::new(mix2(args.seed, 0xc15));
     let exhaustive_upto = args.tier.pick(7, 11);
     let random = args.tier.pick(12, 200);
